@@ -193,8 +193,15 @@ def run_case(case, ctx):
             form = 'scaled'
         ctx.count('interp_multi/arguments:' + form)
         sc = [[2.0, 3.0, -2.0, 5.0][(case['seed'] // 4 + j) % 4] for j in range(d)]
+        intfirst = form == 'scaled' and case['seed'] % 8 == 6 and d >= 2
+        if intfirst:
+            # argument tensors of DIFFERENT dtypes, the narrowest first: an int64 index grid, then float64 tensors with non-integer entries (2.5 i, 0.5 i, -1.5 i)
+            sc = [1.0] + [[2.5, 0.5, -1.5][(case['seed'] // 8 + j) % 3] for j in range(1, d)]
+            ctx.count('interp_multi/arguments-of-different-dtypes(int64 first)')
         if form == 'scaled':
             xs = [ctx.call('TT*scalar', lambda a, c=sc[j]: c * a, grids[j]) for j in range(d)]
+            if intfirst:
+                xs[0] = torchtt.TT([c.to(torch.int64) for c in grids[0].cores])
         elif form == 'pp':
             xs = []
             for j in range(d):
